@@ -212,6 +212,8 @@ func (c *ShipConnection) CloseConnection(safe bool, code int, reason string) {
 // close the data connection and report the end of this connection exactly once,
 // no matter how many of the closing paths (local close, remote announce or confirm) are taken
 func (c *ShipConnection) closeDataConnectionAndReport(code int, reason string, handshakeEnd bool) {
+	c.setConnectionClosed()
+
 	c.dataWriter.CloseDataConnection(code, reason)
 
 	c.closedReportOnce.Do(func() {
